@@ -95,97 +95,140 @@ Lemma c4_wf_find_nonzero : forall (A : Type) (g : list (N * A)) k a, c4_wf g -> 
 Proof. intros A g k a Hwf H E. subst. apply Hwf. eapply c4_find_some_key; eauto. Qed.
 
 (* ------------------------------------------------------------------ (a) read_xref *)
-Lemma c4_xwalk_inv : forall fuel g off visited reads,
-  NoDup visited -> incl visited (map fst g) -> ~ In off visited -> (length g < fuel + length visited)%nat ->
-  fst (c4_xwalk fuel g off visited reads) <> C4xFuel /\
-  (length (snd (c4_xwalk fuel g off visited reads)) + 2 * length visited <= length reads + 2 * length g)%nat.
+Lemma c4_xlocate_in : forall g off e, c4_xlocate g off = Some e -> In e g.
 Proof.
-  induction fuel as [|f IH]; intros g off visited reads Hn Hi Hoff Hlen.
-  - pose proof (c4_znodup_keys_le _ g visited Hn Hi). lia.
-  - pose proof (c4_znodup_keys_le _ g visited Hn Hi) as Hle.
-    cbn [c4_xwalk]. destruct (c4_zfind g off) as [s|] eqn:Ef; [|cbn; split; [discriminate|lia]].
-    assert (Hk : In off (map fst g)) by (eapply c4_zfind_some_key; eauto).
-    assert (Hn' : NoDup (off :: visited)) by (constructor; assumption).
-    assert (Hi' : incl (off :: visited) (map fst g)) by (intros x [Hx|Hx]; [subst; assumption | auto]).
-    pose proof (c4_znodup_keys_le _ g (off :: visited) Hn' Hi') as Hle'. cbn [length] in Hle'.
-    destruct (c4x_bad s); [cbn; split; [discriminate|lia]|].
-    (* the result of the /XRefStm part: Ok with at most two more reads, or an error with at most one *)
-    set (after := match c4x_kind s with
-                  | C4xStream => (C4xOk, off :: reads)
-                  | C4xTable => if (c4x_stm s =? 0)%Z then (C4xOk, off :: reads)
-                                else match c4_zfind g (c4x_stm s) with
-                                     | None => (C4xNotFound, off :: reads)
-                                     | Some t => match c4x_kind t with
-                                                 | C4xTable => (C4xNotFound, off :: reads)
-                                                 | C4xStream => if c4x_bad t then (C4xDamaged, off :: reads)
-                                                                else (C4xOk, c4x_stm s :: off :: reads)
-                                                 end
-                                     end
-                  end).
-    assert (Hafter : fst after <> C4xFuel /\ (length (snd after) <= length reads + 2)%nat).
-    { unfold after. destruct (c4x_kind s); [destruct (c4x_stm s =? 0)%Z; [cbn; split; [discriminate|lia]|]|cbn; split; [discriminate|lia]].
-      destruct (c4_zfind g (c4x_stm s)) as [t|]; [|cbn; split; [discriminate|lia]].
-      destruct (c4x_kind t); [cbn; split; [discriminate|lia]|].
-      destruct (c4x_bad t); cbn; split; try discriminate; lia. }
-    destruct after as [ra reads'] eqn:Ea. cbn [fst snd] in Hafter. destruct Hafter as [Hra Hlr].
-    destruct ra; try (cbn; split; [first [discriminate | assumption] | lia]).
-    destruct (c4_zmem (c4x_prev s) (off :: visited)) eqn:Em; [cbn; split; [discriminate|lia]|].
-    destruct (c4x_prev s =? 0)%Z; [cbn; split; [discriminate|lia]|].
-    rewrite c4_zmem_false in Em.
-    assert (Hlen' : (length g < f + length (off :: visited))%nat) by (cbn [length]; lia).
-    destruct (IH g (c4x_prev s) (off :: visited) reads' Hn' Hi' Em Hlen') as [H1 H2].
-    split; [exact H1|]. cbn [length] in H2. lia.
+  induction g as [|[a s] g IH]; simpl; intros off e H; [discriminate|].
+  destruct ((a - c4x_lead s <=? off) && (off <=? a))%Z; [inversion H; left; reflexivity | right; eauto].
+Qed.
+
+Lemma c4_xstm_inv : forall g stm reads, fst (c4_xstm g stm reads) <> C4xFuel /\
+  (length (snd (c4_xstm g stm reads)) <= length reads + 1)%nat.
+Proof.
+  intros g stm reads. unfold c4_xstm. destruct (stm =? 0)%Z; [cbn; split; [discriminate|lia]|].
+  destruct (c4_xlocate g stm) as [[a' t]|]; [|cbn; split; [discriminate|lia]].
+  destruct (c4x_kind t); [cbn; split; [discriminate|lia]|].
+  destruct (c4x_bad t); cbn; split; try discriminate; lia.
+Qed.
+
+(* `entered`: the sections read so far.  A section is only ever entered when the /Prev of every section entered before
+   is already a member of `visited` (it is the offset that was read next); so when a section is entered again, through
+   whatever white-space alias, its /Prev is found in `visited` and the walk ends there. *)
+Lemma c4_xwalk_inv : forall fuel g off visited reads ws (entered : list (Z * c4_xsec)),
+  NoDup entered -> incl entered g ->
+  (forall e, In e entered -> In (c4x_prev (snd e)) (off :: visited)) ->
+  NoDup (off :: visited) ->
+  (length g < fuel + length entered)%nat ->
+  c4xo_res (c4_xwalk fuel g off visited reads ws) <> C4xFuel /\
+  (length (c4xo_reads (c4_xwalk fuel g off visited reads ws)) + 2 * length entered <= length reads + 2 * length g + 2)%nat /\
+  (length (c4xo_visited (c4_xwalk fuel g off visited reads ws)) + length entered <= length visited + length g + 1)%nat /\
+  (N.to_nat (c4xo_ws (c4_xwalk fuel g off visited reads ws)) + length entered <= N.to_nat ws + length g + 1)%nat /\
+  NoDup (c4xo_visited (c4_xwalk fuel g off visited reads ws)).
+Proof.
+  unfold c4_xwalk.
+  induction fuel as [|f IH]; intros g off visited reads ws entered Hn Hi Hp Hv Hlen.
+  - pose proof (NoDup_incl_length Hn Hi). lia.
+  - pose proof (NoDup_incl_length Hn Hi) as Hle.
+    cbn [c4_xwalk_v]. destruct (c4_xlocate g off) as [[a0 s]|] eqn:El;
+      [|cbn; repeat split; [discriminate | lia | lia | lia | assumption]].
+    apply c4_xlocate_in in El.
+    set (ws' := if (match c4x_kind s with C4xTable => (1 <=? c4x_gap s)%Z | C4xStream => false end) && (0 <? a0 - off)%Z
+                then ws + 1 else ws).
+    assert (Hws : (N.to_nat ws' <= N.to_nat ws + 1)%nat).
+    { unfold ws'. destruct (_ && _); lia. }
+    clearbody ws'.
+    (* the common tail: after the section (and its /XRefStm) has been read *)
+    assert (Htail : forall reads', (length reads' <= length reads + 2)%nat ->
+      let o := if c4_zmem (c4x_prev s) (off :: visited) then mkC4xout C4xLoop reads' (off :: visited) ws'
+               else if (c4x_prev s =? 0)%Z then mkC4xout C4xOk reads' (off :: visited) ws'
+               else c4_xwalk_v false f g (c4x_prev s) (off :: visited) reads' ws' in
+      c4xo_res o <> C4xFuel /\
+      (length (c4xo_reads o) + 2 * length entered <= length reads + 2 * length g + 2)%nat /\
+      (length (c4xo_visited o) + length entered <= length visited + length g + 1)%nat /\
+      (N.to_nat (c4xo_ws o) + length entered <= N.to_nat ws + length g + 1)%nat /\
+      NoDup (c4xo_visited o)).
+    { intros reads' Hr. cbv zeta.
+      destruct (c4_zmem (c4x_prev s) (off :: visited)) eqn:Em;
+        [cbn; repeat split; [discriminate | lia | lia | lia | assumption]|].
+      destruct (c4x_prev s =? 0)%Z; [cbn; repeat split; [discriminate | lia | lia | lia | assumption]|].
+      rewrite c4_zmem_false in Em.
+      assert (Hnew : ~ In (a0, s) entered) by (intros Hin; apply Em; exact (Hp _ Hin)).
+      assert (Hn' : NoDup ((a0, s) :: entered)) by (constructor; assumption).
+      assert (Hi' : incl ((a0, s) :: entered) g) by (intros x [Hx|Hx]; [subst; assumption | auto]).
+      pose proof (NoDup_incl_length Hn' Hi') as Hle'. cbn [length] in Hle'.
+      assert (Hp' : forall e, In e ((a0, s) :: entered) -> In (c4x_prev (snd e)) (c4x_prev s :: off :: visited)).
+      { intros e [He|He]; [subst; left; reflexivity | right; exact (Hp _ He)]. }
+      assert (Hv' : NoDup (c4x_prev s :: off :: visited)) by (constructor; assumption).
+      assert (Hlen' : (length g < f + length ((a0, s) :: entered))%nat) by (cbn [length]; lia).
+      destruct (IH g (c4x_prev s) (off :: visited) reads' ws' _ Hn' Hi' Hp' Hv' Hlen') as (H1 & H2 & H3 & H4 & H5).
+      cbn [length] in *. repeat split; [exact H1 | lia | lia | lia | exact H5]. }
+    destruct (c4x_kind s).
+    + destruct (negb (1 <=? c4x_gap s)%Z); [cbn; repeat split; [discriminate | lia | lia | lia | assumption]|].
+      destruct (Z.min (c4x_gap s) 2 <? a0 - off)%Z; [cbn; repeat split; [discriminate | lia | lia | lia | assumption]|].
+      destruct (c4x_bad s); [cbn; repeat split; [discriminate | lia | lia | lia | assumption]|].
+      destruct (c4_xstm_inv g (c4x_stm s) (a0 :: reads)) as [Hs1 Hs2].
+      destruct (c4_xstm g (c4x_stm s) (a0 :: reads)) as [r reads'] eqn:Es. cbn [fst snd length] in Hs1, Hs2.
+      destruct r; try (cbn; repeat split; [first [discriminate | assumption] | lia | lia | lia | assumption]).
+      apply Htail. lia.
+    + destruct (c4x_bad s); [cbn; repeat split; [discriminate | lia | lia | lia | assumption]|].
+      apply Htail. cbn [length]. lia.
 Qed.
 
 (* the /Prev walk never runs out of the fuel it is given: it stops after at most one round through the sections *)
-Lemma xref_walk_fuel_lemma : forall g start, fst (c4_read_xref g start) <> C4xFuel.
+Lemma xref_walk_fuel_lemma : forall g start, c4xo_res (c4_read_xref g start) <> C4xFuel.
 Proof.
   intros g start. unfold c4_read_xref. destruct (start =? 0)%Z; [cbn; discriminate|].
-  apply (c4_xwalk_inv (S (length g)) g start [] []); [constructor | intros x [] | intros [] | cbn; lia].
+  apply (c4_xwalk_inv (S (length g)) g start [] [] 0 []);
+    [constructor | intros x [] | intros e [] | constructor; [intros []|constructor] | cbn; lia].
 Qed.
 
-(* every section is read at most once, with at most one /XRefStm stream each: work is linear in the number of sections *)
-Lemma xref_walk_reads_lemma : forall g start, (length (snd (c4_read_xref g start)) <= 2 * length g)%nat.
+(* every section is read at most once - and once more when it is reached again through another white-space alias, which
+   ends the walk - with at most one /XRefStm stream each: work is linear in the number of sections *)
+Lemma xref_walk_reads_lemma : forall g start, (length (c4xo_reads (c4_read_xref g start)) <= 2 * length g + 2)%nat.
 Proof.
   intros g start. unfold c4_read_xref. destruct (start =? 0)%Z; [cbn; lia|].
-  destruct (c4_xwalk_inv (S (length g)) g start [] []) as [_ H]; [constructor | intros x [] | intros [] | cbn; lia|].
+  destruct (c4_xwalk_inv (S (length g)) g start [] [] 0 []) as (_ & H & _);
+    [constructor | intros x [] | intros e [] | constructor; [intros []|constructor] | cbn; lia|].
   cbn [length] in H. lia.
 Qed.
 
-Lemma c4_xwalk_cyclic : forall fuel g off visited reads,
-  (forall k s, c4_zfind g k = Some s ->
-     c4x_bad s = false /\ c4x_stm s = 0%Z /\ c4x_prev s <> 0%Z /\ In (c4x_prev s) (map fst g)) ->
-  In off (map fst g) ->
-  fst (c4_xwalk fuel g off visited reads) = C4xLoop \/ fst (c4_xwalk fuel g off visited reads) = C4xFuel.
+(* a set of offsets that the walk cannot leave: each of them leads (through any amount of white space the reader of that
+   kind of section tolerates) to a readable section (a table: without /XRefStm) whose /Prev is again in the set *)
+Definition c4_xclosed (g : list (Z * c4_xsec)) (P : Z -> Prop) : Prop :=
+  forall off, P off -> exists a s, c4_xlocate g off = Some (a, s) /\
+    c4x_bad s = false /\ c4x_prev s <> 0%Z /\ P (c4x_prev s) /\
+    (c4x_kind s = C4xTable -> c4x_stm s = 0%Z /\ (1 <= c4x_gap s)%Z /\ (a - off <= Z.min (c4x_gap s) 2)%Z).
+
+Lemma c4_xwalk_cyclic : forall fuel g P off visited reads ws,
+  c4_xclosed g P -> P off ->
+  c4xo_res (c4_xwalk fuel g off visited reads ws) = C4xLoop \/ c4xo_res (c4_xwalk fuel g off visited reads ws) = C4xFuel.
 Proof.
-  induction fuel as [|f IH]; intros g off visited reads H Hoff; [right; reflexivity|].
-  cbn [c4_xwalk]. destruct (c4_zfind_key_some _ g off Hoff) as [s Es]. rewrite Es.
-  destruct (H off s Es) as (Hb & Hs & Hp & Hin). rewrite Hb, Hs.
-  assert (E : (if (0 =? 0)%Z then (C4xOk, off :: reads) else
-               match c4_zfind g 0%Z with
-               | None => (C4xNotFound, off :: reads)
-               | Some t => match c4x_kind t with
-                           | C4xTable => (C4xNotFound, off :: reads)
-                           | C4xStream => if c4x_bad t then (C4xDamaged, off :: reads) else (C4xOk, 0%Z :: off :: reads)
-                           end
-               end) = (C4xOk, off :: reads)) by reflexivity.
-  destruct (c4x_kind s); [rewrite E|];
-    (destruct (c4_zmem (c4x_prev s) (off :: visited)); [left; reflexivity|];
-     destruct (c4x_prev s =? 0)%Z eqn:E0; [apply Z.eqb_eq in E0; contradiction|];
-     apply IH; assumption).
+  unfold c4_xwalk.
+  induction fuel as [|f IH]; intros g P off visited reads ws H Hoff; [right; reflexivity|].
+  cbn [c4_xwalk_v]. destruct (H off Hoff) as (a & s & El & Hb & Hp & HP & Ht). rewrite El.
+  destruct (c4x_kind s) eqn:Ek.
+  - destruct (Ht eq_refl) as (Hs & Hg & Hk).
+    assert (E1 : (1 <=? c4x_gap s)%Z = true) by (apply Z.leb_le; exact Hg). rewrite E1. cbn [negb].
+    assert (E2 : (Z.min (c4x_gap s) 2 <? a - off)%Z = false) by (apply Z.ltb_ge; exact Hk). rewrite E2.
+    rewrite Hb, Hs. unfold c4_xstm. cbn [Z.eqb].
+    destruct (c4_zmem (c4x_prev s) (off :: visited)); [left; reflexivity|].
+    destruct (c4x_prev s =? 0)%Z eqn:E0; [apply Z.eqb_eq in E0; contradiction|].
+    eapply IH; eassumption.
+  - rewrite Hb.
+    destruct (c4_zmem (c4x_prev s) (off :: visited)); [left; reflexivity|].
+    destruct (c4x_prev s =? 0)%Z eqn:E0; [apply Z.eqb_eq in E0; contradiction|].
+    eapply IH; eassumption.
 Qed.
 
-(* on a chain that never ends (every section is readable and names an existing previous section: necessarily a
-   cycle) the walk reports "loop detected following xref tables" *)
-Lemma xref_walk_cycle_reported_lemma : forall g start,
-  (forall k s, c4_zfind g k = Some s ->
-     c4x_bad s = false /\ c4x_stm s = 0%Z /\ c4x_prev s <> 0%Z /\ In (c4x_prev s) (map fst g)) ->
-  In start (map fst g) -> start <> 0%Z ->
-  fst (c4_read_xref g start) = C4xLoop.
+(* on a chain that never ends (every offset it reaches leads to a readable section that names a further such offset:
+   necessarily a cycle, possibly closed only through white space in front of a section) the walk reports "loop detected
+   following xref tables" *)
+Lemma xref_walk_cycle_reported_lemma : forall g P start,
+  c4_xclosed g P -> P start -> start <> 0%Z ->
+  c4xo_res (c4_read_xref g start) = C4xLoop.
 Proof.
-  intros g start H Hin H0. pose proof (xref_walk_fuel_lemma g start) as Hf.
+  intros g P start H Hin H0. pose proof (xref_walk_fuel_lemma g start) as Hf.
   unfold c4_read_xref in *. destruct (start =? 0)%Z eqn:E; [apply Z.eqb_eq in E; contradiction|].
-  destruct (c4_xwalk_cyclic (S (length g)) g start [] [] H Hin) as [H1|H1]; [exact H1 | contradiction].
+  destruct (c4_xwalk_cyclic (S (length g)) g P start [] [] 0 H Hin) as [H1|H1]; [exact H1 | contradiction].
 Qed.
 
 (* ------------------------------------------------------------------ (b) page tree *)
